@@ -39,6 +39,7 @@ pub fn run(_ctx: &Ctx) -> Report {
     };
 
     let mut map_std: HashMap<CardPair, u32> = HashMap::new();
+    let mut map_parsed: HashMap<CardPair, u32> = HashMap::new();
     let mut both_orders: Vec<(CardPair, f32)> = Vec::new();
     let mut canon_hashes: HashMap<u64, (u8, u8)> = HashMap::new();
     for a in 0..52u8 {
@@ -59,7 +60,7 @@ pub fn run(_ctx: &Ctx) -> Report {
             check(&mut report, "either_order_equal_hashes", &name, std_hash(&p) == std_hash(&q) && fx_hash(&p) == fx_hash(&q), &|| format!("std {:x}/{:x} fx {:x}/{:x}", std_hash(&p), std_hash(&q), fx_hash(&p), fx_hash(&q)));
             let (lo, hi) = pid(a, b);
             check(&mut report, "first_is_lower_card", &name, cid(&p[0]) == lo && cid(&p[1]) == hi && p[0] < p[1], &|| format!("[{}, {}]", p[0], p[1]));
-            let t = p.to_string();
+            let t = catch(|| p.to_string()).unwrap_or_else(|e| format!("<panic {}>", e));
             check(&mut report, "text_is_canonical", &name, t == pair_text((lo, hi)), &|| t.clone());
             let back = catch(|| t.parse::<CardPair>());
             check(&mut report, "text_round_trip", &name, matches!(&back, Ok(Ok(x)) if *x == p), &|| format!("'{}' parses to {:?}", t, back));
@@ -67,8 +68,16 @@ pub fn run(_ctx: &Ctx) -> Report {
             let swapped = format!("{}{}", card_text(b), card_text(a));
             let r1 = catch(|| written.parse::<CardPair>());
             let r2 = catch(|| swapped.parse::<CardPair>());
-            let ok = matches!((&r1, &r2), (Ok(Ok(x)), Ok(Ok(y))) if x == y && *x == p);
+            let ok = matches!((&r1, &r2), (Ok(Ok(x)), Ok(Ok(y))) if x == y && *x == p && *y == p && p == *x);
             check(&mut report, "both_text_orders_parse_equal", &name, ok, &|| format!("{:?} / {:?}", r1, r2));
+            // a parsed pair is the same canonical value as the built one: hashes, element order, text
+            if let Ok(Ok(x)) = &r1 {
+                let x = *x;
+                let facts = catch(|| (std_hash(&x), fx_hash(&x), cid(&x[0]), cid(&x[1]), x.to_string()));
+                let ok = matches!(&facts, Ok((sh, fh, c0, c1, t)) if *sh == std_hash(&p) && *fh == fx_hash(&p) && *c0 == lo && *c1 == hi && *t == pair_text((lo, hi)));
+                check(&mut report, "parsed_pair_is_canonical", &name, ok, &|| format!("'{}' parses to {:?}", written, facts));
+                *map_parsed.entry(x).or_insert(0) += 1;
+            }
             *map_std.entry(p).or_insert(0) += 1;
             both_orders.push((p, 1.0));
             if a < b {
@@ -81,6 +90,20 @@ pub fn run(_ctx: &Ctx) -> Report {
         }
     }
     check(&mut report, "map_keyed_in_both_orders_has_1326_entries", "std HashMap", map_std.len() == 1326 && map_std.values().all(|n| *n == 2), &|| format!("{} keys", map_std.len()));
+    check(&mut report, "map_keyed_in_both_orders_has_1326_entries", "std HashMap of parsed pairs", map_parsed.len() == 1326 && map_parsed.values().all(|n| *n == 2), &|| format!("{} keys", map_parsed.len()));
+    // a range written with every combo in both card orders holds each combo once, with the later weight
+    let mut rng = crate::util::Rng::new(14);
+    for chunk in crate::conv::all_pairs().chunks(26) {
+        let mut parts: Vec<String> = Vec::new();
+        for p in chunk {
+            let (x, y) = if rng.chance(1, 2) { (p.0, p.1) } else { (p.1, p.0) };
+            parts.push(format!("{}{}", card_text(x), card_text(y)));
+            parts.push(format!("{}{}:0.5", card_text(y), card_text(x)));
+        }
+        let text = parts.join(",");
+        let parsed = catch(|| text.parse::<HandRange>().map(|r| (r.card_pairs().len(), r.card_pairs().values().all(|w| *w == 0.5))));
+        check(&mut report, "range_text_in_both_orders_holds_each_combo_once", &format!("{}..", &text[..9]), parsed == Ok(Ok((chunk.len(), true))), &|| format!("{:?} for {} combos", parsed, chunk.len()));
+    }
     let range: HandRange = both_orders.iter().cloned().collect();
     check(&mut report, "map_keyed_in_both_orders_has_1326_entries", "HandRange", range.card_pairs().len() == 1326, &|| format!("{} keys", range.card_pairs().len()));
     // pairs of different card sets are different values
